@@ -19,6 +19,7 @@ type Rx interface{ isRx() }
 type Lit struct {
 	S   []rune
 	Esc []bool // per rune: write as escape even if printable (optional, may be nil)
+	Raw bool   // write non-ASCII code points as themselves (UTF-8) instead of \u escapes
 }
 
 type Item struct{ Lo, Hi rune }
@@ -111,6 +112,13 @@ func hexEsc(c rune) string {
 
 func plainASCII(c rune) bool { return c >= 0x20 && c < 0x7F }
 
+func litCharRaw(c rune) (string, bool) {
+	if c >= 0xA0 && !(c >= 0xD800 && c <= 0xDFFF) && c != 0xFFFD && c != 0x2028 && c != 0x2029 && c <= 0x10FFFF {
+		return string(c), true
+	}
+	return "", false
+}
+
 func litChar(c rune, forceEsc bool) string {
 	switch c {
 	case '\'':
@@ -179,6 +187,12 @@ func Text(x Rx, prec int) string {
 		var sb strings.Builder
 		sb.WriteByte('\'')
 		for i, c := range x.S {
+			if x.Raw && !(x.Esc != nil && x.Esc[i]) {
+				if s, ok := litCharRaw(c); ok {
+					sb.WriteString(s)
+					continue
+				}
+			}
 			sb.WriteString(litChar(c, x.Esc != nil && x.Esc[i]))
 		}
 		sb.WriteByte('\'')
